@@ -995,6 +995,9 @@ def _raw(prop, full, with_so=True):
         L += [future_drop(T, 0, False, 2, "ABW_ENTRY", 0, 0) for T in DROPPY]
         if not full:
             L = pick(L, 48)
+        # never-polled futures (life stage 0) of both sides
+        L += [x for x in [future_drop(T, c, ss, 0) for ss in (False, True) for T, c in zip(DROPPY, (0, 1, 0))]
+              if x.name not in set(i.name for i in L)]
     elif prop == "C16":
         L += seqs_at(REWAKE2_AT, DROPPY)
         L += seqs_at(REWAKE_AT, SMALLT)
@@ -1006,6 +1009,10 @@ def _raw(prop, full, with_so=True):
         L += poll_splits(DROPPY, full)
         L += stream_scripts(DROPPY, full)
         L += seqs(cur("stream"), DROPPY, [0, 1] if full else [1])
+        # the last sender hands a value directly into the parked stream and leaves before the stream is polled again
+        L += seqs([["stream_start", "try_send", "drop_s", "stream_pollw0", "stream_pollw0", "stream_pollw1"],
+                   ["stream_start", "try_send", "close_s", "stream_pollw0", "stream_pollw0"],
+                   ["try_send", "stream_start", "stream_pollw0", "try_send", "drop_s", "stream_pollw1", "stream_pollw0"]], DROPPY, [0, 1])
         if full:
             L += async_matrix(DROPPY, [0, 1], True)
     elif prop == "C18":
@@ -1117,10 +1124,11 @@ MUST = {
     "C15": [r"^d_tag[spl]_c0_rf_st3", r"^d_tagp_c0_rf_st2_abw_entry_f0", r"^d_.*_sf_st2_.*f1_n[01]$", r"_c0_.*__(close_r|drop_r|close_s)__a(send|recv)_drop[01]",
             r"_c0_asend_start0__asend_start1__asend_start2__asend_drop0",
             r"rot_w3__",
-            r"_st5_.*_f0_", r"_st5_.*_f1_"],
+            r"_st5_.*_f0_", r"_st5_.*_f1_", r"^d_.*_rf_st0_", r"^d_.*_sf_st0_"],
     "C16": [r"^ps_.*_sf_register_waker_try_recv", r"^ps_.*_rf_register_waker_try_send", r"^pp_.*_diffw_abw_sleep_f0_n1", r"^pp_.*_diffw_abw_(entry|spin)_f[01]_n0", r"^st_.*_sp[12]", r"^p_done",
             r"asend_poll0w1__try_recv",
-            r"asend_start1__asend_poll0w1__|arecv_start1__arecv_poll0w1__"],
+            r"asend_start1__asend_poll0w1__|arecv_start1__arecv_poll0w1__",
+            r"stream_start__try_send__drop_s__stream_poll", r"stream_start__try_send__close_s__stream_poll"],
     "C18": [r"_c2_try_send__try_send__asend_start0__try_recv__",
             r"drop_[rs]__close_[sr]", r"rot_w3__arecv_start0__arecv_start1__drop_s", r"rot_q1__.*__try_recv__try_send", r"__try_recv__send_timeout__send_timeout__", r"asend_start0__try_send_rt__", r"_c1_convert_r$",
             r"_c1_try_send__asend_start0__asend_start1__recv_timeout__", r"_cu_.*drop_s__recv_timeout__recv__try_recv_rt__drain", r"_cu_.*drop_s__try_recv__arecv_start0__stream_start", r"drop_r__send__send_timeout__send_opt_timeout", r"close_s__recv__recv_timeout__try_recv", r"close_r__send__send_timeout", r"asend_start1__asend_poll0w1__try_recv", r"close_[sr]__clone_s[01]__clone_s[23]__clone_r"],
